@@ -138,6 +138,27 @@ carquet_status_t carquet_init(void) {
     detect_arm_features();
 #endif
 
+#ifdef CARQUET_VERIF
+    /* Verification hook: cap the detected x86 feature set at the level named
+     * in CARQUET_VERIF_CPU_CAP (scalar|sse42|avx2|avx512) so that the
+     * dispatcher's table can be checked for every capability set on one host.
+     * The real detection above still runs; flags are only ever cleared. */
+    {
+        extern char* getenv(const char*);
+        const char* cap = getenv("CARQUET_VERIF_CPU_CAP");
+        if (cap) {
+            int level = !strcmp(cap, "scalar") ? 0 : !strcmp(cap, "sse42") ? 1 :
+                        !strcmp(cap, "avx2") ? 2 : 3;
+            if (level < 3) {
+                g_cpu_info.has_avx512f = 0; g_cpu_info.has_avx512bw = 0;
+                g_cpu_info.has_avx512vl = 0; g_cpu_info.has_avx512vbmi = 0;
+            }
+            if (level < 2) { g_cpu_info.has_avx2 = 0; g_cpu_info.has_avx = 0; }
+            if (level < 1) { g_cpu_info.has_sse42 = 0; g_cpu_info.has_sse41 = 0; }
+        }
+    }
+#endif
+
     /* Initialize compression lookup tables.
      * This ensures tables are built before any multi-threaded use,
      * making compression/decompression thread-safe. */
